@@ -142,12 +142,35 @@ def Expr.Over (tbl : Table) : Expr → Prop
   | .app1 f x => tbl.lookup f.name = some f ∧ f.arity = 1 ∧ x.Over tbl
   | .app2 f l r => tbl.lookup f.name = some f ∧ f.arity = 2 ∧ l.Over tbl ∧ r.Over tbl
 
+instance Expr.decOver (tbl : Table) : (e : Expr) → Decidable (e.Over tbl)
+  | .leaf s => by unfold Expr.Over; infer_instance
+  | .app0 f => by unfold Expr.Over; infer_instance
+  | .app1 f x => by
+    unfold Expr.Over
+    have := Expr.decOver tbl x
+    infer_instance
+  | .app2 f l r => by
+    unfold Expr.Over
+    have := Expr.decOver tbl l
+    have := Expr.decOver tbl r
+    infer_instance
+
 /-- what the theorems need of a table: operators are left- or right-associative, arity-0 elements are functions,
-    and the punctuation is not an element name -/
+    the punctuation is not an element name, and no element takes more than two operands -/
 def Table.WellFormed (tbl : Table) : Prop :=
   (∀ r ∈ tbl, r.2.1 = true → r.2.2.2.2 ≠ 0) ∧ (∀ r ∈ tbl, r.2.2.1 = 0 → r.2.1 = false) ∧
-  tbl.lookup "(" = none ∧ tbl.lookup ")" = none ∧ tbl.lookup "," = none
+  tbl.lookup "(" = none ∧ tbl.lookup ")" = none ∧ tbl.lookup "," = none ∧ (∀ r ∈ tbl, r.2.2.1 ≤ 2)
 
 instance (tbl : Table) : Decidable tbl.WellFormed := by unfold Table.WellFormed; infer_instance
 
+end Lang
+
+namespace Lang
+/-- precedence / associativity / arity / kind of a named element (0 when the name is not registered) -/
+def Table.prec (tbl : Table) (s : String) : Nat := ((tbl.lookup s).map (·.prec)).getD 0
+def Table.assoc (tbl : Table) (s : String) : Int := ((tbl.lookup s).map (·.assoc)).getD 0
+def Table.arity (tbl : Table) (s : String) : Nat := ((tbl.lookup s).map (·.arity)).getD 0
+def Table.isOperator (tbl : Table) (s : String) : Bool := ((tbl.lookup s).map (·.isOp)).getD false
+def Table.operators (tbl : Table) : List String := (tbl.filter (·.2.1)).map (·.1)
+def Table.functions (tbl : Table) : List String := (tbl.filter (!·.2.1)).map (·.1)
 end Lang
